@@ -18,7 +18,8 @@ import hashlib
 import json
 import os
 
-from lib import build, hrun, tlc, tvdev
+from lib import build, hrun, tlc
+from lib import c1415tv as tvdev
 from lib.common import Broken, log
 
 LEVEL = "model_checking"
@@ -34,17 +35,7 @@ WITNESSES = [("WitRefused", "{32}", 1), ("WitExistAtMax", "{32}", 1), ("WitExist
 MAX_REPORTS = 8
 
 
-def _printed(r, tag="BEH"):
-    """Fast version of TLCResult.printed(): the TLA+ string escapes (\\" and \\\\) are JSON escapes."""
-    pre = '<<"%s", "' % tag
-    res = []
-    for line in r.out.splitlines():
-        if line.startswith(pre) and line.endswith('">>'):
-            try:
-                res.append(json.loads(json.loads('"' + line[len(pre):-3] + '"')))
-            except Exception as e:
-                raise Broken("cannot parse TLC output line: %s (%s)" % (line[:200], e))
-    return res
+_printed = tvdev.fast_printed
 
 
 def _set(names):
